@@ -206,7 +206,7 @@ theorem skipZeros_safe (cx : Ctx c) (k : Comp) (b : Bytes) (hb : Bytes.Valid b) 
 /-- every byte at `[i, j)` is `'0'` -/
 def ZeroRange (s : List Nat) (i j : Nat) : Prop := ∀ n, i ≤ n → n < j → s[n]? = some 48
 
-theorem iterCount_step (cx : Ctx c) (hbc : c.bytesContiguous = true) (k : Comp) (hk : k ≠ .special) (b : Bytes) :
+theorem iterCount_step (cx : Ctx c) (k : Comp) (hk : k ≠ .special) (b : Bytes) :
     Bytes.iterCount c k (Bytes.incCount c k { b with index := b.index + 1 }) = Bytes.iterCount c k b + 1 := by
   cases hic : c.iterContiguous k
   · have hf : c.feats.format = true := by
@@ -215,7 +215,7 @@ theorem iterCount_step (cx : Ctx c) (hbc : c.bytesContiguous = true) (k : Comp) 
       · rfl
     cases k <;> simp_all [Bytes.iterCount, Bytes.incCount]
   · have hi := incCount_spec c k { b with index := b.index + 1 }
-    simp only [Bytes.iterCount, hic, if_true, Bytes.currentCount, hbc, hi.2]
+    simp only [Bytes.iterCount, hic, if_true, hi.2]
 
 theorem readIfValueCased_hit (cx : Ctx c) (hbc : c.bytesContiguous = true) (k : Comp) (b : Bytes)
     (hx : b.slc[b.index]? = some 48) :
@@ -257,7 +257,7 @@ theorem skipZerosLoop_exact (cx : Ctx c) (hbc : c.bytesContiguous = true) (k : C
         by_cases hm : m = b.index
         · subst hm; exact hx
         · exact h3 m (by omega) hm2
-      · rw [h5, iterCount_step cx hbc k hk b]; omega
+      · rw [h5, iterCount_step cx k hk b]; omega
     · rw [readIfValueCased_miss cx hbc k 48 b hx] at h
       simp only [bind, Except.bind, Bool.false_eq_true, if_false, pure, Except.pure, Except.ok.injEq] at h
       subst h
